@@ -81,6 +81,13 @@ Definition store_batch (s : lstate) (ms : list pmsg) : lstate * list ack :=
     else store_ok s ms
   end.
 
+(* with optimistic concurrency control the loop takes one message per batch *)
+Fixpoint store_each (s : lstate) (ms : list pmsg) : lstate * list ack :=
+  match ms with
+  | [] => (s, [])
+  | m :: r => let '(s1, a1) := store_batch s [m] in let '(s2, a2) := store_each s1 r in (s2, a1 ++ a2)
+  end.
+
 Inductive lstep :=
 | LPublish (ms : list pmsg)        (* messages that reach the loop as one batch *)
 | LFollower (r : N) (o : Z)        (* a replication request from r: it has everything up to o *)
@@ -91,7 +98,8 @@ Definition step (s : lstate) (x : lstep) : lstate * list ack :=
   match x with
   | LPublish ms =>
     let nacks := map (fun m => mkAck (pm_corr m) (pm_policy m) 0 ATooLarge) (filter pm_too_large ms) in
-    let '(s', acks) := store_batch s (filter (fun m => negb (pm_too_large m)) ms) in
+    let good := filter (fun m => negb (pm_too_large m)) ms in
+    let '(s', acks) := if l_cc s then store_each s good else store_batch s good in
     (s', nacks ++ acks)
   | LFollower r o =>
     if existsb (N.eqb r) (l_replicas s) && negb (N.eqb r 0)
